@@ -92,4 +92,17 @@ CHECKS["C02"] = dict(
              "operands keep the summed C01 error budget below 1/2.",
 )
 
+CHECKS["C10"] = dict(
+        src="checks/c10.cpp", cfg="rel", link="static", engine="A-case-explorer",
+        category="exploration", design_ref="DESIGN.md section 4, C10",
+        technique="exhaustive enumeration of every length ell in 0..10000 for each product kernel x operand families on the real code against exact modular running sums",
+        text="Each of the ten q120 product functions (a*a, b*b, b*c, block forms with one and two columns; reference and AVX2) is executed "
+             "for EVERY ell in 0..10000 on six operand families per layout (canonical, unreduced/lazy, all-maximal, alternating, single "
+             "maximal, zero) and each lane is compared modulo its prime with the exact sum; conversions (int64->b, int64->c, b->c, b+b, "
+             "c+c, b->int128 centred lift) are checked on boundary alphabets incl. INT64_MIN/MAX, +-(Q-1)/2 and lazy representatives; "
+             "block extract/save on every block index.",
+        note="Operand values are families, not all 2^64 lane contents (the no-wrap argument for all lane contents is C04's envelope "
+             "model); default 30-bit primes.",
+)
+
 NOT_YET = {}
